@@ -22,14 +22,16 @@ def levels(tier):
     if tier == "quick":
         return [
             {"name": "empty", "n": 0, "alphabet": ["we"], "defaults": ["never", "domain"], "backends": ["memory", "file"], "budget": 30},
-            {"name": "tpl-n0", "n": 0, "prelude": TPL, "alphabet": ["we"], "defaults": ["never", "domain"], "backends": ["memory", "file"]},
+            {"name": "tpl-n0", "n": 0, "prelude": TPL, "alphabet": ["we"], "defaults": ["never", "domain"], "backends": ["memory", "file"], "absent2": True},
+            {"name": "rule-n0", "n": 0, "prelude": [["batch", 0, [1, 2]], ["we", [[0, 3]]], ["rule", [0, 3, "path1"]]], "alphabet": ["we"],
+             "defaults": ["never"], "backends": ["memory"], "pool": [POOL4[0], POOL4[1], POOL4[3]], "absent2": True, "budget": 45},
             {"name": "del-n1", "n": 1, "prelude": [["links", [[1, 2], [2, 1]]], ["we", [[0, 3]]], ["we", [[1, 4]]]], "alphabet": ["delwe", "rmprefix"],
              "defaults": ["never"], "backends": ["memory"], "pool": [POOL4[0], POOL4[1], POOL4[3]], "budget": 60},
             {"name": "auto-del-n1", "n": 1, "prelude": [["links", [[1, 2], [2, 1]]]], "alphabet": ["delwe"],
              "defaults": ["domain"], "backends": ["memory"], "pool": [POOL4[0], POOL4[1], POOL4[3]], "budget": 60},
             {"name": "foreign-id", "n": 0, "prelude": TPL + [["attach", [3, 3], 40]], "alphabet": ["we"], "defaults": ["never"],
              "backends": ["memory", "file"], "budget": 40},
-            {"name": "tpl-n1", "n": 1, "prelude": TPL, "alphabet": ["addprefix", "rule"], "defaults": ["never"],
+            {"name": "tpl-n1", "n": 1, "prelude": TPL, "alphabet": ["addprefix"], "defaults": ["never"],
              "rule_patterns": ["path1"], "backends": ["memory"], "budget": 100, "pool": [POOL4[0], POOL4[1], POOL4[3]],
              "prelude": [["batch", 0, [1, 2]], ["links", [[1, 2], [2, 1], [1, 1]]], ["we", [[0, 3]]]]},
         ]
@@ -78,8 +80,9 @@ def harness(E):
     absent = pool[1].extend(z, "absent")
     fresh = PL([E.const(b"s:http|"), E.const(b"h:") + E.bytes("y", 1) + E.const(b"|")], "fresh")
     E.reach("absent-lru")
-    absent2 = pool[0].extend(z, "absent2")
-    lrus = [pl.lru for pl in pool] + [absent.lru, absent2.lru, fresh.lru, pool[0].prefix(2).lru]
+    lrus = [pl.lru for pl in pool] + [absent.lru, fresh.lru, pool[0].prefix(2).lru]
+    if P.get("absent2"):
+        lrus.append(pool[0].extend(z, "absent2").lru)      # an absent LRU right below the first pool LRU (a new first path stem)
     for lru in lrus:
         q("retrieve_prefix", t.retrieve_prefix, lru)
         q("retrieve_webentity", t.retrieve_webentity, lru)
